@@ -152,7 +152,12 @@ Definition set_value (te : tenv) (heap : list rcell) (dest : gtype) (v : dval) :
     | TBool => match v with DBool _ => Ok v | _ => Err ECodec end
     | TBytes => match v with DBytes _ => Ok v | _ => Err ECodec end
     | TSlice e => match v with DSlice e' _ => if gtype_eqb e e' then Ok v else Err ECodec | _ => Err ECodec end
-    | TMap k x => match v with DMapV k' x' _ => if gtype_eqb k k' && gtype_eqb x x' then Ok v else Err ECodec | _ => Err ECodec end
+    | TMap k x =>
+      match v with
+      | DMapV k' x' _ => if gtype_eqb k k' && gtype_eqb x x' then Ok v
+                         else Unmodelled      (* a map of another type (an untyped map nested in a list or map): converted entry by entry *)
+      | _ => Err ECodec
+      end
     | TOther => Err ECodec
     end
   end.
